@@ -1,4 +1,5 @@
 """Per-property plans of /verif/check."""
+import hashlib
 import sys, os, json, time, shutil, subprocess
 import vlib
 from vlib import *  # noqa
@@ -386,6 +387,8 @@ def check_c17(v, tier):
     cfg = "Gen_s4g1" if tier == "quick" else "Gen_s4g2"
     path, meta = ensure_bundles(cfg)
     digests = {}
+    digests_via = {}
+    deep_phases = {}
     for fs_ in sets:
         name = "+".join(fs_) or "no_std+alloc"
         b = build_harness("debug", features=fs_, threads=("par_iter" in fs_))
@@ -406,6 +409,23 @@ def check_c17(v, tier):
             if fs_ != ["std", "macros", "par_iter", "deser"] and fs_ != ["std", "macros"]:
                 f["orig_prop"] = f["prop"]
         add_replay(v, r, meta, "the exhaustive battery replayed by a harness built with indextree features {%s}" % name, OUT_PROPS + ["C09", "C11"])
+        # the same battery on states reached through clone_from onto a used destination (a Clone impl that exists in one
+        # feature set only), and the size probe (limits that exist in one feature set only)
+        rv = run_replay(b, path, ["--via-clone-from"], "C17-via-" + (name.replace("+", "_")))
+        digests_via[name] = rv["digest"]
+        for f in rv["findings"]:
+            f["detail"] = "[features: %s, after clone_from] %s" % (name, f["detail"])
+            if fs_ != ["std", "macros", "par_iter", "deser"] and fs_ != ["std", "macros"]:
+                f["orig_prop"] = f["prop"]
+        add_replay(v, rv, meta, "the battery on states reached through clone_from onto a used destination, features {%s}" % name, OUT_PROPS + ["C09", "C11"])
+        dsum, dfs = vlib.run_deep(b, "C17-" + name.replace("+", "_"))
+        v.cov["evaluations"] += dsum["phases_completed"]
+        deep_phases[name] = hashlib.sha256(json.dumps([dsum["exit"], sorted((f["prop"], f["kind"], f["detail"]) for f in dfs)]).encode()).hexdigest()[:16]
+        for f in dfs:
+            f["detail"] = "[features: %s] %s" % (name, f["detail"])
+            if fs_ != ["std", "macros", "par_iter", "deser"] and fs_ != ["std", "macros"]:
+                f["orig_prop"] = f["prop"]
+        v.add_findings(dfs, "deep-chain:" + name)
         if "par_iter" in fs_:
             out = os.path.join(vlib.RUN, "thr-%s.json" % name.replace("+", "_"))
             try:
@@ -462,6 +482,12 @@ def check_c17(v, tier):
                            "bundles": "GenPrint_s4", "digests": pdig})
     if len(set(pdig.values())) != 1:
         v.add_findings([{"prop": "C17", "kind": "feature-sets-disagree", "detail": "pretty-printed text differs between feature sets: %s" % json.dumps(pdig), "case": {"digests": pdig}}], "print-digests")
+    v.cov["parts"].append({"part": "digests-after-clone_from", "what": "the same digest for states reached through clone_from onto a used destination; must be identical", "digests": digests_via})
+    if len(set(digests_via.values())) != 1:
+        v.add_findings([{"prop": "C17", "kind": "feature-sets-disagree", "detail": "the observation digests of the battery on arenas overwritten by clone_from differ between feature sets: %s" % json.dumps(digests_via), "case": {"digests": digests_via}}], "digests-after-clone_from")
+    v.cov["parts"].append({"part": "deep-chain-outcomes", "what": "outcome (exit, findings; the serde phases exist only with deser) of the 300 000-level / 700-wide / 4 000-level-print size probe per feature set; must be identical", "outcomes": deep_phases})
+    if len(set(deep_phases.values())) != 1:
+        v.add_findings([{"prop": "C17", "kind": "feature-sets-disagree", "detail": "the size probe (chain of 300 000 levels, lists of 700, printing 4 000 levels) ends differently between feature sets: %s" % json.dumps(deep_phases), "case": {"outcomes": deep_phases}}], "deep-chain-outcomes")
     ds = set(digests.values())
     v.cov["parts"].append({"part": "digests", "what": "digest of all results / links / iterator outputs per feature set; must be identical", "digests": digests})
     if len(ds) != 1:
